@@ -553,3 +553,46 @@ def prof_malformed(rng, n, tier):
 
 PROFILES = {"map": prof_map, "versions": prof_versions, "canon": prof_canon, "nav": prof_nav, "diff": prof_diff,
             "persist": prof_persist, "malformed": prof_malformed}
+
+def prof_faults(rng, n, tier):
+    """C12: a persisted tree reloaded into mixed residency, then target operations each of which is
+    re-run with a fault at every Load / KeyCompare / Marshal call it makes"""
+    out = []
+    for i in range(n):
+        h = H("flt%d" % i, rng, cache="none", kind=rng.choice([0, 0, 1, 2, 4, 5]), vt=rng.choice(["int", "raw"]), bfs=[2, 2, 3, 4])
+        t = h.new()
+        build_tree(h, t, rng.choice([3, 8, 20, 45]))
+        old = h.load(h.mkroot(t))
+        x = h.load(h.nr - 1)
+        if rng.random() < 0.5:
+            mutate(h, x, rng.randint(1, 4))
+        h.opts["from"] = len(h.ops)
+        for _ in range(rng.randint(3, 8)):
+            c = rng.random()
+            if c < 0.35:
+                h.ins(x)
+            elif c < 0.6:
+                h.dele(x)
+            elif c < 0.68:
+                h.get(x)
+            elif c < 0.74:
+                h.ops.append("iter %d" % x)
+            elif c < 0.8:
+                h.ops.append("seek %d %s" % (x, h.kg.probe()))
+            elif c < 0.86:
+                h.ops.append("diff %d %d" % (x, old)); h.ops.append("difflinks %d %d" % (x, old))
+            elif c < 0.9:
+                h.clone(x)
+            else:
+                cu = h.cursor(x)
+                h.ops.append(rng.choice(["cmin %d", "cmax %d"]) % cu)
+                for _ in range(rng.randint(1, 4)):
+                    h.ops.append(rng.choice(["cfwd %d", "cbwd %d"]) % cu)
+        if rng.random() < 0.3:
+            # drain towards empty: exercises merge and the shrink loop
+            for k in sorted(h.ref[x], key=key_sort)[: rng.randint(1, 12)]:
+                h.dele(x, k)
+        out.append(h)
+    return out
+
+PROFILES["faults"] = prof_faults
